@@ -1,7 +1,7 @@
 (* Proofs for NatOrder: fuel monotonicity of the native interpreter, steadiness of quiet expressions, and
    "under se_program the argument order of the native model is not observable" (up to fuel and stuckness). *)
 From Coq Require Import ZArith NArith List Bool Lia PeanoNat.
-From NV Require Import Lang.Ast Lang.Ref Back.NatSem Back.Agree Back.NatOrder.
+From NV Require Import Lang.Ast Lang.AstInd Lang.Ref Back.NatSem Back.Agree Back.NatOrder.
 Import ListNotations.
 
 (* ---------- the local loops of nat_expr are the mirrors ---------- *)
@@ -9,6 +9,23 @@ Lemma nat_expr_call_eq ord fns n genv en f args out :
   nat_expr ord fns (S n) genv en (ECall f args) out =
   nbind (sel_args ord (nat_expr ord fns n genv en) args out) (call_tail ord fns n genv f).
 Proof. destruct ord; reflexivity. Qed.
+
+Lemma nat_expr_arr_eq ord fns n genv en es out :
+  nat_expr ord fns (S n) genv en (EArr es) out =
+  nbind (sel_args ord (nat_expr ord fns n genv en) es out) arr_tail.
+Proof. destruct ord; reflexivity. Qed.
+
+(* (at a i) is the two-argument call nl_array_at_int(a, i) *)
+Lemma nat_expr_at_eq ord fns n genv en a i out :
+  nat_expr ord fns (S n) genv en (EAt a i) out =
+  nbind (sel_args ord (nat_expr ord fns n genv en) [a; i] out) at_tail.
+Proof.
+  destruct ord; cbn [nat_expr sel_args args_lr args_rl nbind].
+  - destruct (nat_expr LtoR fns n genv en a out) as [va o1| | | |]; cbn [nbind]; try reflexivity.
+    destruct (nat_expr LtoR fns n genv en i o1) as [vi o2| | | |]; reflexivity.
+  - destruct (nat_expr RtoL fns n genv en i out) as [vi o1| | | |]; cbn [nbind]; try reflexivity.
+    destruct (nat_expr RtoL fns n genv en a o1) as [va o2| | | |]; reflexivity.
+Qed.
 
 Lemma run_nat_eq ord fuel p :
   run_nat ord fuel p = if cc_refuses p then NCcFailO else nat_finish (nat_whole ord fuel p).
@@ -75,15 +92,18 @@ Proof.
       * cbn [nat_expr]. ubind; [apply He|apply upto_refl].
       * cbn [nat_expr]. destruct o;
           try (ubind; [apply He|]; ubind; [apply He|apply upto_refl]).
-        -- ubind; [apply He|]. destruct a as [z|[|]| |s]; try apply upto_refl.
+        -- ubind; [apply He|]. destruct a as [z|[|]| |s|l]; try apply upto_refl.
            ubind; [apply He|apply upto_refl].
-        -- ubind; [apply He|]. destruct a as [z|[|]| |s]; try apply upto_refl.
+        -- ubind; [apply He|]. destruct a as [z|[|]| |s|l]; try apply upto_refl.
            ubind; [apply He|apply upto_refl].
       * rewrite !nat_expr_call_eq. ubind; [apply sel_args_upto; intros; apply He|].
         unfold call_tail. destruct (nat_find_fn fns f) as [d|]; [|apply upto_refl].
         destruct (nat_bind_params (fparams d) a) as [en'|]; [|apply upto_refl].
         ubind; [apply Hs|apply upto_refl].
-      * cbn [nat_expr]. ubind; [apply He|]. destruct a as [z|[|]| |s]; try apply upto_refl; apply He.
+      * cbn [nat_expr]. ubind; [apply He|]. destruct a as [z|[|]| |s|l]; try apply upto_refl; apply He.
+      * rewrite !nat_expr_arr_eq. ubind; [apply sel_args_upto; intros; apply He|apply upto_refl].
+      * rewrite !nat_expr_at_eq. ubind; [apply sel_args_upto; intros; apply He|apply upto_refl].
+      * cbn [nat_expr]. ubind; [apply He|apply upto_refl].
     + red; intros m genv en s out Hle. destruct m as [|m]; [lia|]. assert (Hnm : n <= m) by lia.
       pose proof (fun genv en e out => IHe m genv en e out Hnm) as He.
       pose proof (fun genv en s out => IHs m genv en s out Hnm) as Hs.
@@ -93,12 +113,12 @@ Proof.
       * ubind; [apply Hs|]. destruct (fst a); try apply upto_refl. apply Hs.
       * ubind; [apply He|apply upto_refl].
       * ubind; [apply He|apply upto_refl].
-      * ubind; [apply He|]. destruct a as [z|b| |s']; try apply upto_refl.
+      * ubind; [apply He|]. destruct a as [z|b| |s'|l']; try apply upto_refl.
         ubind; [apply Hs|apply upto_refl].
-      * ubind; [apply He|]. destruct a as [z|[|]| |s']; try apply upto_refl.
+      * ubind; [apply He|]. destruct a as [z|[|]| |s'|l']; try apply upto_refl.
         ubind; [apply Hs|]. destruct (fst a); try apply upto_refl; apply Hs.
       * ubind; [apply He|]. ubind; [apply He|].
-        destruct a as [z| | |]; destruct a0 as [z0| | |]; try apply upto_refl. apply Hf.
+        destruct a as [z| | | |]; destruct a0 as [z0| | | |]; try apply upto_refl. apply Hf.
       * apply upto_refl.
       * apply upto_refl.
       * destruct e as [e|]; [|apply upto_refl]. ubind; [apply He|apply upto_refl].
@@ -159,6 +179,33 @@ Proof.
     cbn; match goal with |- context [nat_value_eqb ?x ?y] => destruct (nat_value_eqb x y) end; discriminate.
 Qed.
 
+Lemma args_lr_exact ev (q : expr -> option value) l :
+  (forall a, In a l -> forall out, ev a out = qres (q a) out) -> forall out, args_lr ev l out = qres (qargs q l) out.
+Proof.
+  induction l as [|a r IH]; intros H out; [reflexivity|]. cbn [args_lr qargs].
+  rewrite (H a (or_introl eq_refl)). destruct (q a) as [v|]; [|reflexivity]. cbn [qres nbind obind].
+  rewrite IH by (intros b Hb; apply H; right; exact Hb). destruct (qargs q r); reflexivity.
+Qed.
+Lemma args_rl_exact ev (q : expr -> option value) l :
+  (forall a, In a l -> forall out, ev a out = qres (q a) out) -> forall out, args_rl ev l out = qres (qargs q l) out.
+Proof.
+  induction l as [|a r IH]; intros H out; [reflexivity|]. cbn [args_rl qargs].
+  rewrite IH by (intros b Hb; apply H; right; exact Hb).
+  destruct (qargs q r) as [vs|]; cbn [qres nbind obind]; [|destruct (q a); reflexivity].
+  rewrite (H a (or_introl eq_refl)). destruct (q a); reflexivity.
+Qed.
+Lemma qeval_arr genv en es :
+  qeval genv en (EArr es) =
+  obind (qargs (qeval genv en) es) (fun vs => match ints_of vs with Some l => Some (VArr l) | None => None end).
+Proof.
+  cbn [qeval]. f_equal. induction es as [|a r IH]; [reflexivity|]. cbn [qargs]. rewrite IH. reflexivity.
+Qed.
+Lemma qdepth_arr_elem es a : In a es ->
+  qdepth a <= (fix go (l : list expr) : nat := match l with [] => O | a :: r => Nat.max (qdepth a) (go r) end) es.
+Proof.
+  induction es as [|b r IH]; intros H; [destruct H|]. destruct H as [->|H]; [lia|]. specialize (IH H). lia.
+Qed.
+
 Section Quiet.
 Variable fns : list fn.
 Variables genv en : nenv.
@@ -168,8 +215,8 @@ Variables genv en : nenv.
 Lemma quiet_exact ord e : quiet e = true -> forall fuel out, qdepth e < fuel ->
   nat_expr ord fns fuel genv en e out = qres (qeval genv en e) out.
 Proof.
-  induction e as [z|b|s|x|o a IHa|o a IHa b IHb|f args|c IHc a IHa b IHb]; intros Q fuel out Hd;
-    (destruct fuel as [|n]; [lia|]); cbn [quiet qdepth] in Q, Hd.
+  induction e as [z|b|s|x|o a IHa|o a b IHa IHb|f args _|c a b IHc IHa IHb|es IHes|a i _ _|a IHa] using expr_ind3;
+    intros Q fuel out Hd; (destruct fuel as [|n]; [lia|]); cbn [quiet qdepth] in Q, Hd.
   - reflexivity.
   - reflexivity.
   - reflexivity.
@@ -185,14 +232,27 @@ Proof.
       (destruct (qeval genv en a) as [va|]; [|reflexivity]); cbn [qres nbind obind];
       try (rewrite Eb; (destruct (qeval genv en b) as [vb|]; [|reflexivity]); cbn [qres nbind obind];
            apply nopres_agree; intros f; apply binop_nofault; discriminate).
-    + destruct va as [z|[|]| |s]; try reflexivity. rewrite Eb.
+    + destruct va as [z|[|]| |s|l]; try reflexivity. rewrite Eb.
       destruct (qeval genv en b) as [vb|]; [|reflexivity]. destruct vb; reflexivity.
-    + destruct va as [z|[|]| |s]; try reflexivity. rewrite Eb.
+    + destruct va as [z|[|]| |s|l]; try reflexivity. rewrite Eb.
       destruct (qeval genv en b) as [vb|]; [|reflexivity]. destruct vb; reflexivity.
   - discriminate Q.
   - apply andb_prop in Q. destruct Q as [Q Qb]. apply andb_prop in Q. destruct Q as [Qc Qa].
     cbn [nat_expr qeval]. rewrite IHc by (auto; lia). destruct (qeval genv en c) as [vc|]; [|reflexivity].
-    cbn [qres nbind obind]. destruct vc as [z|[|]| |s]; try reflexivity; [apply IHa|apply IHb]; auto; lia.
+    cbn [qres nbind obind]. destruct vc as [z|[|]| |s|l]; try reflexivity; [apply IHa|apply IHb]; auto; lia.
+  - (* array literal of quiet elements *)
+    rewrite nat_expr_arr_eq, qeval_arr.
+    assert (Hel : forall a, In a es -> forall o, nat_expr ord fns n genv en a o = qres (qeval genv en a) o).
+    { intros a Ha o. rewrite Forall_forall in IHes. apply (IHes a Ha).
+      - rewrite forallb_forall in Q. apply Q; exact Ha.
+      - pose proof (qdepth_arr_elem es a Ha). lia. }
+    assert (E : sel_args ord (nat_expr ord fns n genv en) es out = qres (qargs (qeval genv en) es) out).
+    { destruct ord; cbn [sel_args]; [apply args_lr_exact|apply args_rl_exact]; exact Hel. }
+    rewrite E. destruct (qargs (qeval genv en) es) as [vs|]; [|reflexivity].
+    cbn [qres nbind obind]. unfold arr_tail. destruct (ints_of vs); reflexivity.
+  - discriminate Q.
+  - cbn [nat_expr qeval]. rewrite IHa by (auto; lia). destruct (qeval genv en a) as [v|]; [|reflexivity].
+    cbn [qres nbind obind]. destruct v; reflexivity.
 Qed.
 
 (* (b) of the plan: for ANY fuel a quiet expression gives NNoFuel, or NStuck, or NOk v out with v independent of
@@ -411,6 +471,21 @@ Proof.
   - apply forallb_forall; exact H2.
 Qed.
 
+Lemma se_arr es : se_expr (EArr es) = true ->
+  loud_count es <= 1 /\ forall a, In a es -> se_expr a = true.
+Proof.
+  cbn [se_expr]. intros H. apply andb_prop in H. destruct H as [H1 H2]. split.
+  - apply Nat.leb_le; exact H1.
+  - apply forallb_forall; exact H2.
+Qed.
+Lemma se_at a i : se_expr (EAt a i) = true ->
+  loud_count [a; i] <= 1 /\ forall b, In b [a; i] -> se_expr b = true.
+Proof.
+  cbn [se_expr]. intros H. apply andb_prop in H. destruct H as [H H3]. apply andb_prop in H. destruct H as [H1 H2]. split.
+  - apply Nat.leb_le; exact H1.
+  - intros b [<-|[<-|[]]]; assumption.
+Qed.
+
 Section Order.
 Variable fns : list fn.
 Variables o1 o2 : arg_order.
@@ -445,6 +520,22 @@ Proof.
     + intros; apply sim_const.
 Qed.
 
+(* an operand list evaluated in the order of the engine, then a fuel-independent continuation: literals and at *)
+Lemma list_sim n genv en l out (tail : list value -> list N -> nres value) : expr_sim n ->
+  loud_count l <= 1 -> (forall a, In a l -> se_expr a = true) ->
+  ev_sim (nbind (sel_args o1 (nat_expr o1 fns n genv en) l out) tail)
+         (fun m => nbind (sel_args o2 (nat_expr o2 fns m genv en) l out) tail).
+Proof.
+  intros IHe Hlc Hall.
+  apply (sim_bind _ (fun m => sel_args o2 (nat_expr o2 fns m genv en) l out) _ (fun _ => tail)).
+  - apply (sel_args_sim (nat_expr o1 fns n genv en) (fun m => nat_expr o2 fns m genv en) (qeval genv en)).
+    + intros a o Q. apply quiet_steady; exact Q.
+    + intros a Q. exists (S (qdepth a)). intros m o Hle. apply quiet_exact; [exact Q|lia].
+    + exact Hlc.
+    + intros a o Hin. apply IHe. apply Hall; exact Hin.
+  - intros; apply sim_const.
+Qed.
+
 Lemma nat_sim_all : forall n, expr_sim n /\ stmt_sim n /\ for_sim n.
 Proof.
   induction n as [|n [IHe [IHs IHf]]].
@@ -458,14 +549,19 @@ Proof.
       * cbn [nat_expr]. sbind; [apply IHe; exact Hse|apply sim_const].
       * se_split Hse. cbn [nat_expr]. destruct o;
           try (sbind; [apply IHe; assumption|]; sbind; [apply IHe; assumption|apply sim_const]).
-        -- sbind; [apply IHe; assumption|]. destruct a as [z|[|]| |s]; try apply sim_const.
+        -- sbind; [apply IHe; assumption|]. destruct a as [z|[|]| |s|l]; try apply sim_const.
            sbind; [apply IHe; assumption|apply sim_const].
-        -- sbind; [apply IHe; assumption|]. destruct a as [z|[|]| |s]; try apply sim_const.
+        -- sbind; [apply IHe; assumption|]. destruct a as [z|[|]| |s|l]; try apply sim_const.
            sbind; [apply IHe; assumption|apply sim_const].
       * rewrite nat_expr_call_eq. eapply sim_ext; [intros m; apply nat_expr_call_eq|].
         apply call_sim; assumption.
       * se_split Hse. cbn [nat_expr]. sbind; [apply IHe; assumption|].
-        destruct a as [z|[|]| |s]; try apply sim_const; apply IHe; assumption.
+        destruct a as [z|[|]| |s|l]; try apply sim_const; apply IHe; assumption.
+      * rewrite nat_expr_arr_eq. eapply sim_ext; [intros m; apply nat_expr_arr_eq|].
+        destruct (se_arr es Hse) as [Hlc Hall]. apply list_sim; assumption.
+      * rewrite nat_expr_at_eq. eapply sim_ext; [intros m; apply nat_expr_at_eq|].
+        destruct (se_at e1 e2 Hse) as [Hlc Hall]. apply list_sim; assumption.
+      * cbn [nat_expr]. sbind; [apply IHe; exact Hse|apply sim_const].
     + red; intros genv en s out Hse. apply sim_shift. destruct s; cbn [se_stmt] in Hse.
       * apply sim_const.
       * se_split Hse. cbn [nat_stmt]. sbind; [apply IHs; assumption|].
@@ -473,18 +569,18 @@ Proof.
       * cbn [nat_stmt]. sbind; [apply IHe; assumption|apply sim_const].
       * cbn [nat_stmt]. sbind; [apply IHe; assumption|apply sim_const].
       * se_split Hse. cbn [nat_stmt]. sbind; [apply IHe; assumption|].
-        destruct a as [z|b| |s']; try apply sim_const.
+        destruct a as [z|b| |s'|l']; try apply sim_const.
         sbind; [apply IHs; destruct b; assumption|apply sim_const].
       * pose proof Hse as Hw. se_split Hse. cbn [nat_stmt]. sbind; [apply IHe; assumption|].
-        destruct a as [z|[|]| |s']; try apply sim_const.
+        destruct a as [z|[|]| |s'|l']; try apply sim_const.
         sbind; [apply IHs; assumption|]. destruct (fst a); try apply sim_const; apply IHs; exact Hw.
       * se_split Hse. cbn [nat_stmt]. sbind; [apply IHe; assumption|]. sbind; [apply IHe; assumption|].
-        destruct a as [z| | |]; destruct a0 as [z0| | |]; try apply sim_const. apply IHf; assumption.
+        destruct a as [z| | | |]; destruct a0 as [z0| | | |]; try apply sim_const. apply IHf; assumption.
       * apply sim_const.
       * apply sim_const.
       * destruct e as [e|]; [|apply sim_const]. cbn [nat_stmt]. sbind; [apply IHe; assumption|apply sim_const].
       * cbn [nat_stmt]. sbind; [apply IHe; assumption|apply sim_const].
-      * cbn [nat_stmt]. sbind; [apply IHe; assumption|]. destruct a as [z|[|]| |s']; apply sim_const.
+      * cbn [nat_stmt]. sbind; [apply IHe; assumption|]. destruct a as [z|[|]| |s'|l']; apply sim_const.
       * cbn [nat_stmt]. sbind; [apply IHe; assumption|apply sim_const].
     + red; intros genv en x i hi body out Hse. apply sim_shift. cbn [nat_for].
       destruct (Z.ltb i hi); [|apply sim_const].
